@@ -495,6 +495,11 @@ pub fn generate(profile_name: &str, seed: u64) -> Scenario {
     if profile_name == "deadlock" {
         return generate_deadlock(seed);
     }
+    if profile_name == "overlap" {
+        let mut sc = generate_overlap(seed);
+        sc.profile = "overlap".to_string();
+        return sc;
+    }
     let p = profile(profile_name);
     let mut r = Rng::new(seed ^ crate::util::mix(0xABCD, profile_name.len() as u64 * 131 + profile_name.as_bytes()[0] as u64));
     let n = r.range(p.actors.0, p.actors.1) as usize;
@@ -938,10 +943,12 @@ fn generate_overlap(seed: u64) -> Scenario {
     let d_b = 2 * r.range(0, 3);
     let d_c = 2 * r.range(3, 8);
     let to = 2 * r.range(1, 3);
-    let first = if r.chance(60) {
-        Step::JoinAskTo { t1: 1, b1: plain(nu(), d_b), t2: 2, b2: plain(nu(), d_c), ms: to }
-    } else {
-        Step::JoinAskPanic { target: 1, body: plain(nu(), 2 * r.range(1, 4)) }
+    let first = match r.below(10) {
+        0..=3 => Step::JoinAskTo { t1: 1, b1: plain(nu(), d_b), t2: 2, b2: plain(nu(), d_c), ms: to },
+        4 | 5 => Step::JoinAskPanic { target: 1, body: plain(nu(), 2 * r.range(1, 4)) },
+        // a sequential ask that is given up (timeout / select!) while the callee is still busy with it
+        6 | 7 => Step::Peer { target: 1, kind: SendKind::AskTo(to), mty: MTy::U, body: plain(nu(), d_c) },
+        _ => Step::SelectAsk { target: 1, ms: to, body: plain(nu(), d_c) },
     };
     let m1 = Body { uid: nu(), flags: 0, steps: vec![first] };
     let back = Body { uid: nu(), flags: 0, steps: vec![Step::Peer { target: 0, kind: if r.chance(70) { SendKind::Ask } else { SendKind::AskTo(2 * r.range(1, 5)) }, mty: MTy::U, body: plain(nu(), 2 * r.below(3)) }] };
